@@ -482,7 +482,7 @@ func fetch(t *diskTrack, seqno uint16) {
 		return
 	}
 	p := new(rtp.Packet)
-	err := p.Unmarshal(buf)
+	err := p.Unmarshal(buf[:n])
 	if err != nil {
 		return
 	}
